@@ -124,6 +124,13 @@ def instances(tier, seed):
         s = Spec(nx=2, nu=2, ode=[nl1(X(1)) * U(0) + t * X(0), X(0) - U(1) * X(1)], note='two controls, separate integral terms')
         s.objective = [integral(X(0) * X(0)), integral(U(0) * U(0)), integral(U(1) * U(1)), integral(X(1) * X(1)) + sum_(U(0) * U(0)) + sum_(U(1) * U(1))]
         add(fam.with_horizon(s, H[2 * mi % len(H)]), Cfg(method, N=2, M=[1, 2][mi % 2], intg=intg or 'rk', grid=fam.G_UNI, degree=2, scheme='radau'))
+    # sums whose summand does NOT vary along the grid (global variable / parameter / horizon only): still one term per node, N or N+1 of them
+    from ..dsl import Pg as _Pg, Vg as _Vg
+    for mi, (method, intg, N_) in enumerate((('MS', 'rk', 3), ('DC', None, 2), ('SS', 'rk', 1), ('MS', 'expl_euler', 1))):
+        s = copy.deepcopy(models[0])
+        s.vars = list(s.vars) + [Sym('ws')]
+        s.objective = [sum_(_Vg('ws') * _Vg('ws') * 2 + T, include_last=True), sum_(_Vg('ws') + t0 * 3), at_tf(X(0) * X(0)), wsum('sum+', 1, 2, [1, 2], [_Vg('ws'), T * _Vg('ws')])]
+        add(fam.with_horizon(s, H[(2 + mi) % len(H)]), Cfg(method, N=N_, M=1, intg=intg or 'rk', grid=fam.G_UNI, degree=2, scheme='radau'))
     # DAE with integral under collocation
     for di, s in enumerate(fam.dae_core()):
         s = copy.deepcopy(s)
